@@ -263,19 +263,24 @@ func (d *Dialer) dial(ctx context.Context, network string, addr jid.JID, server 
 }
 
 func (d *Dialer) legacy(ctx context.Context, network string, domain string, cfg *tls.Config) (net.Conn, error) {
+	// The same default ports that are used if no SRV records exist.
+	tlsPort, plainPort := "5223", "5222"
+	if d.S2S {
+		tlsPort, plainPort = "5270", "5269"
+	}
 	if !d.NoTLS {
 		tlsDialer := &tls.Dialer{
 			NetDialer: &d.Dialer,
 			Config:    cfg,
 		}
 		conn, err := tlsDialer.DialContext(ctx, network,
-			net.JoinHostPort(domain, "5223"))
+			net.JoinHostPort(domain, tlsPort))
 		if err == nil {
 			return conn, nil
 		}
 	}
 
-	return d.Dialer.DialContext(ctx, network, net.JoinHostPort(domain, "5222"))
+	return d.Dialer.DialContext(ctx, network, net.JoinHostPort(domain, plainPort))
 }
 
 func connType(useTLS, s2s bool) string {
